@@ -15,6 +15,7 @@ func TestProp(t *testing.T) {
 			"metric rows carry timestamps aligned to max(range, step) inside the queried window (GROUP BY of the LRA / step-fix planners); the expected matrix is the rows re-sampled by qryn's documented FixPeriod rule",
 			"column Go types are those the scanners declare; trace_id is 16 bytes, span_id 8 bytes, payload_type 1 or 2 (table schema / writer)",
 			"invalid UTF-8 is compared modulo U+FFFD replacement",
+			"batches: the channel between producer and writer may carry nil, empty, single-element and large batches in any position (scripted through the LogQL planner plug-in point and a fake ITempoService); series stay contiguous across batches",
 			"Prometheus routes: samples of a series have strictly ascending millisecond timestamps; the expected result is the rows selected by the engine's documented rule (latest sample within the 5 min lookback at each step; every sample of the range for a matrix selector); start/end multiples of 15 s, time in whole seconds; no stale-marker NaNs",
 		},
 	})
@@ -26,5 +27,6 @@ func TestProp(t *testing.T) {
 	addSearch(r)
 	addTrace(r)
 	addProm(r)
+	addBatches(r)
 	r.Main()
 }
